@@ -184,34 +184,72 @@ def strip_await(e: ast.expr) -> ast.expr:
     return e.value if isinstance(e, ast.Await) else e
 
 
-def provenance(rd: ReachingDefs, expr: ast.expr, at: t.Union[int, ast.AST], depth: int = 0) -> str:
-    """Normal form of an expression in terms of parameters / self / globals only: every local name with a single
-    reaching definition is replaced (recursively) by the expression that defines it, so that the result does not
-    depend on how locals are named or on how many intermediate variables are used."""
+_UID = [0]
+
+
+def _tag_calls(fn: ast.AST) -> None:
+    for n in ast.walk(fn):
+        if isinstance(n, ast.Call) and not hasattr(n, "_uid"):
+            _UID[0] += 1
+            n._uid = _UID[0]  # type: ignore[attr-defined]
+
+
+def tag_tree(tree: ast.AST) -> ast.AST:
+    """Mark every call of a (copied) tree with the uid of its call site, innermost first."""
+    calls = [n for n in ast.walk(tree) if isinstance(n, ast.Call) and hasattr(n, "_uid")]
+    for n in reversed(calls):  # ast.walk is breadth first: reversed visits inner calls before the calls that contain them
+        n.func = ast.Name(id=f"{unparse(n.func)}#{n._uid}", ctx=ast.Load())  # type: ignore[attr-defined]
+    return tree
+
+
+def prov_ast(rd: ReachingDefs, expr: ast.expr, at: t.Union[int, ast.AST], depth: int = 0) -> ast.expr:
+    """Normal form (as a tree) of an expression in terms of parameters / self / globals only: every local name with a
+    single reaching definition is replaced (recursively) by the expression that defines it, so that the result does
+    not depend on how locals are named or on how many intermediate variables are used.  Call nodes keep a `_uid` that
+    identifies the call *site* (see value_key)."""
+    import copy
+
+    if not getattr(rd, "_tagged", False):
+        _tag_calls(rd.func.node)
+        rd._tagged = True  # type: ignore[attr-defined]
     if depth > 12:
-        return unparse(expr)
+        return copy.deepcopy(expr)
 
     class Sub(ast.NodeTransformer):
         def visit_Name(self, node: ast.Name) -> ast.AST:
-            if not isinstance(node.ctx, ast.Load) or node.id in rd.func.params:
+            if not isinstance(node.ctx, ast.Load):
                 return node
             ds = rd.reaching(node.id, at)
             if len(ds) != 1 or ds[0].value is None or ds[0].kind not in ("assign",):
                 return node
             d = ds[0]
             v: ast.expr = d.value.value if isinstance(d.value, ast.Await) else d.value  # type: ignore[assignment]
-            inner = ast.parse(provenance(rd, v, d.nid, depth + 1), mode="eval").body
+            inner = prov_ast(rd, v, d.nid, depth + 1)
             if d.index is not None:
+                if isinstance(inner, (ast.Tuple, ast.List)) and d.index < len(inner.elts) and not any(isinstance(e, ast.Starred) for e in inner.elts):
+                    return inner.elts[d.index]
                 return ast.Subscript(value=inner, slice=ast.Constant(value=d.index), ctx=ast.Load())
             return inner
 
         def visit_Await(self, node: ast.Await) -> ast.AST:
             return self.visit(node.value)
 
-    import copy
-
     try:
-        new = Sub().visit(copy.deepcopy(expr))
-        return unparse(ast.fix_missing_locations(new))
-    except (SyntaxError, RecursionError):
-        return unparse(expr)
+        return t.cast(ast.expr, ast.fix_missing_locations(Sub().visit(copy.deepcopy(expr))))
+    except RecursionError:
+        return copy.deepcopy(expr)
+
+
+def provenance(rd: ReachingDefs, expr: ast.expr, at: t.Union[int, ast.AST], depth: int = 0) -> str:
+    """prov_ast as text."""
+    return unparse(prov_ast(rd, expr, at, depth))
+
+
+def value_key(rd: ReachingDefs, expr: ast.expr, at: t.Union[int, ast.AST, None] = None) -> str:
+    """Identity of the *value* of `expr` at `at`: the provenance normal form with every call tagged by its call site,
+    so that two names bound to the result of one call are equal and the results of two textually equal calls are not."""
+    return unparse(tag_tree(prov_ast(rd, expr, at if at is not None else expr)))
+
+
+def is_call_free(rd: ReachingDefs, expr: ast.expr, at: t.Union[int, ast.AST, None] = None) -> bool:
+    return not any(isinstance(n, (ast.Call, ast.Await)) for n in ast.walk(prov_ast(rd, expr, at if at is not None else expr)))
